@@ -9,7 +9,9 @@ from concurrent.futures import ThreadPoolExecutor
 VERIF = os.path.dirname(os.path.dirname(os.path.abspath(__file__)))
 TLA = os.path.join(VERIF, "tla")
 HARNESS = os.path.join(VERIF, "harness")
-REPO = "/repo"
+# The registered checks always run against /repo. VERIF_REPO is for trials of seeded changes in a scratch
+# worktree while /repo itself is in use by another (long) run: the harness is then copied and re-pointed.
+REPO = os.environ.get("VERIF_REPO", "/repo")
 GOENV = dict(os.environ, GOFLAGS="-mod=mod", GOPROXY="off", GOSUMDB="off", GOTOOLCHAIN="local",
              CGO_ENABLED="0")
 JAVA_OPTS = "-Xmx6g -XX:ParallelGCThreads=4"
@@ -17,6 +19,16 @@ JAVA_OPTS = "-Xmx6g -XX:ParallelGCThreads=4"
 
 class ToolFailure(Exception):
     pass
+
+
+if REPO != "/repo":
+    import atexit
+    _hcopy = tempfile.mkdtemp(prefix="verif-harness-")
+    atexit.register(shutil.rmtree, _hcopy, True)
+    shutil.copytree(HARNESS, os.path.join(_hcopy, "harness"), ignore=shutil.ignore_patterns(".go.sum.*"))
+    HARNESS = os.path.join(_hcopy, "harness")
+    _gm = open(os.path.join(HARNESS, "go.mod")).read().replace("=> /repo", "=> " + REPO)
+    open(os.path.join(HARNESS, "go.mod"), "w").write(_gm)
 
 
 def log(*a):
